@@ -137,6 +137,33 @@ package stats
 //@   ensures udb == nil ==> dbN[id] == 0 && dbRes[id * 8 + 2] == 0 && dbRes[id * 8 + 3] == 0 && dbRes[id * 8 + 4] == 0 && dbRes[id * 8 + 5] == 0
 //@   modifies nothing
 
+// Start-up clean-up: only units of hours before the retention window [id-limit+1, id] are deleted, so a restart never
+// loses an hour that is still reported.  delBound is the (exclusive) bound handed to the most recent deleteOldUnits;
+// buckets whose names are not unit ids are debris and may go.
+//@ ghost var delBound int
+//@ declare unitNameOK(name []byte) bool
+//@ func unitNameToID(name []byte) (id uint32, ok bool)
+//@   trusted
+//@   ensures ok == unitNameOK(name)
+//@   ensures ok ==> id == bucketID(name)
+//@   modifies nothing
+//@ func (s *StatsCtx) deleteOldUnits(tx *bbolt.Tx, firstID uint32) (deleted int)
+//@   property C09
+//@   ghost at entry: delBound = firstID
+//@   callsite (*go.etcd.io/bbolt.Tx).DeleteBucket(nm) requires only-units-before-the-bound: !unitNameOK(nm) || bucketID(nm) < firstID
+//@   modifies delBound
+// The deferred panic guard only rewrites the error it is given, and only when a panic is in flight (panicking paths
+// are outside the model: recover() answers nil).
+//@ func withRecovered(orig *error)
+//@   property C09
+//@   ensures *orig == old(*orig)
+//@   modifies *orig
+// (the current hour id is assumed to be larger than the retention length: any clock after 1971)
+//@ func New(conf Config) (s *StatsCtx, err error)
+//@   property C09
+//@   ensures window-survives-restart: err == nil && s.curr.id > uint32(s.limit.Hours()) ==> delBound + uint32(s.limit.Hours()) <= s.curr.id + 1
+//@   modifies *
+
 //@ func (functype) UnitIDGenFunc() (id uint32)
 //@   modifies nothing
 
